@@ -276,6 +276,11 @@ def generate_mxlpy_code_from_symbolic_repr(
         sympy_to_python_fn(fn_name=name, args=args, expr=expr)
         for name, (expr, args) in functions.items()
     )
+    # The function bodies are printed with fully qualified names (math.pi, math.exp,
+    # scipy.special.factorial): import the modules they refer to
+    for module in ("math", "scipy"):
+        if f"{module}." in functions_source and f"import {module}" not in imports:
+            imports = [*imports, f"import {module}"]
     source = [
         *imports,
         "from mxlpy import Model, Derived, InitialAssignment\n",
